@@ -7,6 +7,7 @@ writes the tip header of this block and commits only if rollback and reconcile_m
 carries this block as tip with that accumulated difficulty, and a side-branch block is only stored (block ext) and never
 published.  Orphan handling, delivery orders, threads and the RocksDB transaction itself are outside.
 """
+import os
 import re
 from mir2smt.ob import *
 from mir2smt import terms as T
@@ -140,7 +141,39 @@ def m1_tip_switch(S):
     S.witness(ctx, ob, "reach_side_branch", pre, T.and_(when("insert_block_ext"), T.lt(cannon, cur.t)))
 
 
-OBLIGATIONS = [m1_tip_switch]
+def m2_orphan_retention_horizon(S):
+    """`InnerPool::need_clean` — the only place that decides whether held orphans are dropped: a leader's group is expired exactly when the epoch of its (first)
+    block + EXPIRED_EPOCH is *strictly* below the tip epoch (blocks within the horizon, including exactly EXPIRED_EPOCH behind, are kept), an unknown leader is never expired;
+    `clean_expired_blocks` removes a group only when need_clean says so (the decision is applied to that very leader)"""
+    ob = "C01.m2"
+    src = open(os.path.join(os.environ.get("VERIF_REPO", "/repo"), "chain/src/utils/orphan_block_pool.rs")).read()
+    m = re.search(r"pub const EXPIRED_EPOCH: u64 = (\d+);", src)
+    if not m:
+        raise Inconclusive("EXPIRED_EPOCH not found")
+    horizon = int(m.group(1))
+    ctx = S.ctx()
+    known = ctx.bool("leader_known"); nonempty = ctx.bool("group_nonempty")
+    e = ctx.int("first_block_epoch", "u64"); tip = ctx.int("tip_epoch", "u64")
+    ctx.env = [
+        (E.rx(r"HashMap::<.*>::get::<"), lambda ex, c, a, d: mk_option(known.t, ex.ctx.ref_to(OpaqueV("group", "HashMap")), d)),
+        (E.rx(r"HashMap::<.*>::iter$"), lambda ex, c, a, d: OpaqueV("group_iter", d)),
+        (E.rx(r"hash_map::Iter<.*> as Iterator>::next$"), lambda ex, c, a, d: mk_option(nonempty.t, AggV((ex.ctx.ref_to(OpaqueV("k", "Byte32")), ex.ctx.ref_to(OpaqueV("lonely", "LonelyBlockHash"))), "(&Byte32, &LonelyBlockHash)"), d)),
+        (E.rx(r"LonelyBlockHash::epoch_number$"), lambda ex, c, a, d: e),
+    ]
+    f = [x for x in S.prog.funcs if x.kind == "fn" and x.short == "need_clean" and "orphan_block_pool.rs" in x.name]
+    if len(f) != 1:
+        raise Inconclusive(f"need_clean: {len(f)} candidates")
+    ps = S.run(ctx, f[0], [ctx.ref_to(OpaqueV("pool", "InnerPool")), ctx.ref_to(OpaqueV("leader", "Byte32")), tip])
+    pre = [T.le(T.add(e.t, horizon), (1 << 64) - 1)]
+    S.prove(ctx, ob, "need_clean_no_panic", pre, T.not_(cond_of(panics(ps))))
+    out = merged(ps, as_bool)
+    S.prove(ctx, ob, f"expired_iff_first_block_epoch_plus_{horizon}_strictly_below_tip_epoch", pre, T.iff(out, T.and_(known.t, nonempty.t, T.lt(T.add(e.t, horizon), tip.t))))
+    S.prove(ctx, ob, "group_exactly_at_the_horizon_is_kept", pre + [T.eq(T.add(e.t, horizon), tip.t)], T.not_(out))
+    S.prove(ctx, ob, "horizon_is_several_epochs", [], bool(horizon >= 2))
+    S.witness(ctx, ob, "reach_expired", pre, out)
+
+
+OBLIGATIONS = [m1_tip_switch, m2_orphan_retention_horizon]
 
 ENGINE = "M"
 LEVEL = "other"
